@@ -96,6 +96,7 @@ type Out struct {
 	Note       string     `json:"note,omitempty"`
 	Seen       []string   `json:"seen,omitempty"` // every observation class seen at least once
 	Events     []Event    `json:"events,omitempty"`
+	Early      []string   `json:"early,omitempty"` // tracker contacts at a moment the specification's tracker is not due (C15)
 }
 
 // Event is one line of the trace validated by TLC (spec/PrivacyTrace.tla).
@@ -844,6 +845,9 @@ func runCase(c *Case, out *Out) {
 		}
 		sort.Strings(obs)
 		out.Observed = append(out.Observed, obs)
+		if (gs["tracker:port"] || gs["tracker:noport"]) && !expect["tracker:port"] && !expect["tracker:noport"] && !cur.Due {
+			out.Early = append(out.Early, fmt.Sprintf("%s: the tracker was contacted again although neither its interval nor five minutes have elapsed since the last announce (proxy %v, tracker %s)", desc, c.Init.Proxy, c.Init.Kind))
+		}
 		// the configuration as the torrent itself reports it
 		rc, cerr := t.GetConf()
 		if cerr != nil {
